@@ -36,5 +36,3 @@ func main() {
 	f(c)
 	c.finish()
 }
-
-
